@@ -283,11 +283,11 @@ func init() {
 				c.Inc("blank_run_forests")
 				for ui, unit := range c15Units {
 					for pos := 0; pos <= n; pos++ {
-						for _, g := range []int{3, 4} {
+						for _, g := range []int{3, 4, 5, 6, 7, 8} {
 							gaps := make([]int, n+1)
 							gaps[pos] = g
 							idx++
-							c15Check(c, cn, d, names, enum.Spelling{Unit: unit, Bullets: []byte("-*"), Heading: ui%2 == 1 && g == 4, Gaps: gaps, CRLF: g == 4 && pos%2 == 0}, idx)
+							c15Check(c, cn, d, names, enum.Spelling{Unit: unit, Bullets: []byte("-*"), Heading: ui%2 == 1 && g%4 == 0, Gaps: gaps, CRLF: g%4 == 0 && pos%2 == 0}, idx)
 						}
 					}
 				}
